@@ -20,6 +20,72 @@ CHECKS = {
         "comparison and by C06. malloc failure and I/O error paths are not exercised. other-database isolation is by construction in the model "
         "(one chain per database) and checked on the implementation by the oracle.",
    technique="Coq refinement proof by induction over operation lists + extracted-model vs implementation correspondence + regenerated facts"),
+ "C02": dict(
+   text="Proof (Coq): on the cursor model of iwkv.c (_cursor_to_lr with the head/tail pseudo nodes, node copies, skip marks) a scan from before-first with NEXT "
+        "returns exactly the records of the chain, in chain order, once each, for every chain of non-empty nodes (scan_next_all); with C01 that is key order. "
+        "EQ/GE positioning, PREV and the positioned operations are in the model and compared with the implementation call by call (answers and cursor "
+        "bookkeeping cnpos/skip_next/copy), and decided on the implementation by a reference-map oracle; no theorem is proved about them.",
+   design="5/C02", note=TB + "Partial: only the forward scan has a theorem. The oracle tracks the cursor position from the implementation's own answers.",
+   technique="Coq proof (induction over nodes and slots) + extracted cursor model vs implementation correspondence + reference oracle"),
+ "C03": dict(
+   text="Proof (Coq), partial: the field codecs of the file image are inverse (little-endian header fields, variable-length numbers of the data-block index as "
+        "written by _kvblk_sync_mm and read by _kvblk_at_mm). The reopen identity itself is decided per history on the implementation: dump/metadata before close = "
+        "after reopen over {WAL on/off} x {read-only, read-write} x {trim, no-trim}, read-only sessions refuse every mutating call, truncate empties the store; the "
+        "reopened image is read by the extracted auditor of C06.",
+   design="5/C03", note=TB + "Partial: reopen_identity, trim_preserves and rdonly_no_effect are stated as open goals in Properties_C03.v, not proved. PROT_READ of the kernel is trusted.",
+   technique="Coq codec round-trip proofs + close/reopen histories against a reference-map oracle + extracted auditor on the image"),
+ "C04": dict(
+   text="Proof (Coq) over a model of the WAL protocol at file-effect granularity (Proto.v) and of replay: redo_idempotent, recover_is_prefix_partial, "
+        "crash_in_recovery, growth_tears_refuted (the known finding). Tied by predicting the real effect trace, log bytes and main-file bytes from the traced "
+        "listener calls; every crash point (hook iwverif_fx) of generated histories is executed: kill, reopen, dump, and a python prefix oracle decides.",
+   design="5/C04", note=TB + "Known finding C04-growth-checkpoint (growth-forced checkpoint without savepoint) is reported, not failed. recover_is_prefix is proved under the "
+        "hypothesis that the log is well-formed and ends in a savepoint after each sync (checked on every real log); COPY records excluded. Kill model: a write that returned survives; power loss is outside.",
+   technique="Coq proofs over protocol/replay models + crash-point enumeration with the file-effect hook + prefix oracle"),
+ "C05": dict(
+   text="Proof (Coq) over byte-level models of the log records, the pre-scan (_last_fix_and_reset_points) and replay (_rollforward_exl): scan_cut, recovery_point, "
+        "cut_monotone, intact_savepoint_kept, replay_cut_is_savepoint_state, no_half_write, for every log and every cut. Tied by running the extracted scan/replay and "
+        "the real recovery on the same cut/corrupted logs produced by real runs (rc, main-file CRC and size, applied-record trace).",
+   design="5/C05", note=TB + "Single-bit-flip detection with checksums is sampled, not proved. Known finding C05-growth-checkpoint shared with C04.",
+   technique="Coq proofs (induction over record lists and cut offsets) + extracted scan/replay vs implementation on real logs"),
+ "C06": dict(
+   text="Proof (Coq): an independent reader of the file format (KV/Audit.v: header, database chain, every level chain, nodes, data blocks, node pages, metadata, "
+        "bitmap) is extracted and run on the REAL file image after every batch of every history; proved: its accounting algorithms mean what the property says - "
+        "sorted-range test = pairwise disjointness, bitmap walk without complaint = allocated set equals occupied set exactly (C06_bitmap_exact).",
+   design="5/C06", note=TB + "Partial: the structural checks of the auditor are boolean restatements of the property (not proved against a separate declarative WF); that every reachable "
+        "state of the store passes the auditor is established per history on real images, not by a theorem (skip-list links above level 0 and data-block layout are not in the store model).",
+   technique="extracted Coq auditor on real images + Coq soundness proofs of its accounting + histories with destroy/re-create, metadata, reopen"),
+ "C07": dict(
+   text="Proof (Coq), partial: lock skeleton of the KV API as an LTS over ranked reader/writer locks; for any number of threads and any calls that request locks in "
+        "increasing rank order every reachable state with an unfinished call has an enabled step (no_deadlock), and the API skeletons follow that order; the order of "
+        "the lock macros is re-read from the source on every run. The implementation runs generated multi-threaded programs; every execution must terminate (watchdog) and "
+        "have a linearisation consistent with program order (exact Wing-Gong search).",
+   design="5/C07", note=TB + "Partial: atomicity (serialisability), the worker-count/condvar handshake of exclusive sections, rwlock writer preference and data-race freedom are NOT proved; "
+        "schedules are sampled by the kernel scheduler. A scan is a sequence of atomic cursor calls and is not required to be atomic as a whole.",
+   technique="Coq proof of deadlock freedom under a lock-rank discipline + concurrent executions checked for linearisability and termination"),
+ "C08": dict(
+   text="Proof (Coq) over a model of the backup image layout and of opening it (recover mode 2): split_mk_image, replay_cut_mode2, open_image_is_savepoint_state. "
+        "Implementation: online backup with a second writer thread released at the k-th chunk of the main-file copy; the image must open to a prefix state within "
+        "[ops done at call, ops done at return] and the live store must be unaffected; extracted open_image compared with the implementation's main file.",
+   design="5/C08", note=TB + "Covers the image half; thread schedules are sampled. Known finding C08-growth-during-main-copy is reported, not failed.",
+   technique="Coq proofs over the image model + backup-under-load scenarios with a snapshot oracle"),
+ "C09": dict(
+   text="Proof (Coq), partial: the list-level facts behind every cursor fix-up loop (insert: cnpos>=idx -> cnpos+1; remove: cnpos>idx -> cnpos-1, same slot -> successor; "
+        "split at the pivot: kept part / new node at cnpos-pivot) - the cursor keeps designating its record, for all node contents and slots. The full fix-up model "
+        "(KV/Cursor.v, all loops incl. node removal and stale-copy refresh) is compared with the implementation's cursor bookkeeping after every mutation, and a "
+        "reference oracle decides skip / repeat / resurrect on the implementation for scans continued across mutations.",
+   design="5/C09", note=TB + "Partial: scan_stable and fresh_inv are stated as open goals, not proved.",
+   technique="Coq list-level proofs + extracted cursor model vs implementation correspondence + scan-stability oracle"),
+ "C10": dict(
+   text="Proof (Coq) over a model of the block allocator (bitmap, free-extent tree, lfbk cache, allocate/aligned allocate/deallocate/reallocate guards): bitmap lemmas, "
+        "allocation only flips free bits and returns a fully free, aligned, large-enough region; invalid releases refused. Tied by comparing rc, region, free-extent list, "
+        "cache and bitmap with the implementation after every operation; an interval-set oracle decides disjointness and byte preservation.",
+   design="5/C10", note=TB + "See notes/fsm.md for the exact list of proved statements and hypotheses (non-strict mode does not detect double frees: histories release only live regions).",
+   technique="Coq invariant proofs over the allocator model + structural correspondence after every operation"),
+ "C11": dict(
+   text="Proof (Coq) over the same allocator model: the loader computes exactly the maximal zero runs of any bitmap (load_is_runs), tree = maximal runs invariant "
+        "(tree_is_runs, refuted for the pre-fix code with the recorded witness), reopen/trim/clear statements. Tied as C10 plus close/reopen/clear cycles and file size after close.",
+   design="5/C11", note=TB + "See notes/fsm.md for what is proved unconditionally and what under stated hypotheses.",
+   technique="Coq invariant proofs over the allocator model + structural correspondence after every operation"),
  "C12": dict(
    text="Proof (Coq): executable model of iwexfile.c (three-way split per mmap slot, shared/private windows, truncate, ensure_size, "
         "add/remove mmap, resize policies with their C arithmetic, chunked copy) refined to a flat byte array for every call sequence with "
@@ -47,6 +113,29 @@ CHECKS = {
    note=TB + "Hypotheses: documents well-formed for the binary form (keys <= 255 bytes, unique ignoring case), arrays < 2^31 elements, pointers with at most 999 "
         "segments and no '*' segment. Totality of the encoder and print_agree are not proved (oracle compares the printed texts); clone independence is oracle-only.",
    technique="Coq proofs (round trip by case split on magnitude intervals, visitor induction) + extracted-model vs implementation correspondence"),
+ "C15": dict(
+   text="Proof (Coq) over a tree model with cached array indices (klidx) of the JSON Patch engine: klidx_inv for every program, patch_single_op_rfc/patch_program_rfc "
+        "(RFC 6902 result for every applicable operation sequence), test = RFC equality, failed_patch_leaves_binary, binary form. Tied by four API modes vs extracted model and an independent RFC 6902 interpreter.",
+   design="5/C15", note=TB + "The _partial theorems carry no_root_alias (the library reads '/' as the root); increment/add_create/swap are oracle-checked, not proved.",
+   technique="Coq proofs (invariant + induction over patch programs) + extracted-model vs implementation correspondence + RFC oracle"),
+ "C16": dict(
+   text="Proof (Coq): merge_rfc7386 (pool mode = MergePatch for all pairs), merge_heap_safe over an explicit ownership heap (no double free, no use after free, no leak), "
+        "merge_variants_agree / binary / path entry points. Heap-mode runs under ASan+LSan; independent RFC 7386 oracle.",
+   design="5/C16", note=TB + "A non-object patch is rejected by jbn_merge_patch (reported to the caller) rather than replacing the root.",
+   technique="Coq proofs over value and ownership-heap models + sanitizer-built harness + RFC oracle"),
+ "C17": dict(
+   text="Proof (Coq) over index-level models (every read/write is a checked buffer access): no out-of-bounds access and termination within a stated fuel for the JSON pointer "
+        "parser, iwhex2bin, iwatoi2, both unescape passes, the number branch of the JSON parser (result independent of the incoming errno), iwxstr operation sequences. "
+        "The other text consumers (regex, ini, patch decoding, split/replace) run under ASan/UBSan on valid, malformed and mutated inputs placed in exactly-sized buffers, "
+        "fresh vs after-history runs compared.",
+   design="5/C17", note=TB + "Partial by nature: a theorem about the model is not memory safety of the C code; unmodelled functions are only sampled by the sanitizer runs.",
+   technique="Coq proofs over index-level models + sanitizer-built differential and history-independence runs"),
+ "C18": dict(
+   text="Proof (Coq): hmap_refines_map (any hash, any LRU bound, free log), dll_wf, lru_victims_oldest, freed_exactly_once, ulist/plist refine lists, xstr refines bytes, "
+        "AVL stays a balanced BST and refines a set, sorted-array helpers, ring buffer, pool regions disjoint. All eight containers compared white-box with the implementation "
+        "(bucket shapes, LRU chain, AVL shape, offsets) and against python reference structures; plain and ASan/LSan builds.",
+   design="5/C18", note=TB + "iwrb_back on a wrapped ring only partially specified (the ring has no count field). Allocation-failure paths, iwxstr_set_size, child pools are oracle/sanitizer only.",
+   technique="Coq refinement proofs + white-box extracted-model vs implementation correspondence + sanitizers"),
  "C19": dict(
    text="Proof (Coq) over a Gallina model of the varint macros, iwitoa/iwatoi, hex codecs and key comparators: round-trip, "
         "length = IW_VNUMSIZE (macro translated from the current source), rejection of sign-bit values, for all 64-bit values; "
